@@ -107,3 +107,27 @@ Fixpoint walk (V : variant) (choices : list nat) (st : state) : list nat :=
   end.
 Definition walk_sys (specs : list aspec) (choices : list nat) : list nat :=
   walk current choices (init_state (map mk_actor specs)).
+
+(* every interleaving of the macro steps of the actors in `allowed`, from the state reached by `prefix` *)
+Fixpoint enum_only (V : variant) (fuel : nat) (allowed : list nat) (st : state) : list (list nat) :=
+  match fuel with
+  | O => [[]]
+  | S f =>
+      let nexts := flat_map (fun i => match macro_exec V 6 st i with
+                                      | Some (st', l) => map (fun s => l ++ s) (enum_only V f allowed st')
+                                      | None => [] end) allowed in
+      match nexts with [] => [[]] | _ => nexts end
+  end.
+Definition enum_from (specs : list aspec) (prefix : list nat) (allowed : list nat) (fuel : nat) : list (list nat) :=
+  match run current (init_state (map mk_actor specs)) prefix with
+  | Some st => map (fun s => prefix ++ s) (enum_only current fuel allowed st)
+  | None => []
+  end.
+
+(* is the next step of actor i disabled after `sched` (schedules in the 4-step flush layout)?  (used for negative probes: the
+   implementation must block there too) *)
+Definition blocked_after (specs : list aspec) (sched : list nat) (i : nat) : bool :=
+  match run current (init_state (map mk_actor specs)) sched with
+  | Some st => match exec current st i with None => true | Some _ => false end
+  | None => false
+  end.
